@@ -101,7 +101,10 @@ class Translator:
             op = '&&' if isinstance(e.op, ast.And) else '||'
             return '(' + f' {op} '.join(self.b(v) for v in e.values) + ')'
         if isinstance(e, ast.UnaryOp) and isinstance(e.op, ast.Not):
-            return f'(negb {self.b(e.operand)})'
+            try:
+                return f'(negb {self.b(e.operand)})'
+            except Untranslatable:
+                return f'({self.z(e.operand)} =? 0)'          # "not n" on an int
         if isinstance(e, ast.Compare):
             parts = []
             left = e.left
@@ -138,6 +141,16 @@ class Translator:
             return self.block(rest, ret)      # docstring
         if isinstance(s, ast.Return):
             return self.z(s.value) if ret == 'z' else self.b(s.value)
+        if (isinstance(s, ast.Assign) and len(s.targets) == 1 and isinstance(s.targets[0], ast.Name)
+                and isinstance(s.value, ast.IfExp) and isinstance(s.value.body, ast.Name)
+                and isinstance(s.value.orelse, ast.Name) and s.value.body.id in self.consts
+                and s.value.orelse.id in self.consts):
+            n = s.targets[0].id           # table = T1 if cond else T2
+            v = f'(if {self.b(s.value.test)} then {self.consts[s.value.body.id]} else {self.consts[s.value.orelse.id]})'
+            self.consts[n] = n
+            return f'(let {n} := {v} in\n {self.block(rest, ret)})'
+        if isinstance(s, ast.Match):
+            return self.match_stmt(s, rest, ret)
         if isinstance(s, ast.Assign) and len(s.targets) == 1 and isinstance(s.targets[0], ast.Name):
             n = s.targets[0].id
             try:
@@ -159,6 +172,35 @@ class Translator:
             return f'(if {self.b(s.test)} then {then}\n else {other})'
         raise Untranslatable(ast.dump(s)[:200])
 
+    def match_stmt(self, s, rest, ret):
+        subj = self.z(s.subject)
+
+        def pat(p):
+            if isinstance(p, ast.MatchValue):
+                return f'({subj} =? {self.z(p.value)})'
+            if isinstance(p, ast.MatchOr):
+                return '(' + ' || '.join(pat(q) for q in p.patterns) + ')'
+            if isinstance(p, ast.MatchAs) and p.pattern is None:
+                # wildcard "_" or capture "name" (only the subject's own name is accepted as capture)
+                if p.name is None or (isinstance(s.subject, ast.Name) and p.name == s.subject.id):
+                    return 'true'
+            raise Untranslatable('match pattern ' + ast.dump(p)[:100])
+        out = None
+        for case in reversed(s.cases):
+            cond = pat(case.pattern)
+            if case.guard is not None:
+                cond = f'({cond} && {self.b(case.guard)})' if cond != 'true' else self.b(case.guard)
+            saved_b, saved_c = set(self.bool_names), dict(self.consts)
+            body = self.block(case.body + ([] if self.returns(case.body) else rest), ret)
+            self.bool_names, self.consts = saved_b, saved_c
+            if out is None:
+                if cond != 'true':
+                    raise Untranslatable('match without a final catch-all case')
+                out = body
+            else:
+                out = f'(if {cond} then {body}\n else {out})'
+        return out
+
     def returns(self, stmts):
         """every path of the block ends in return"""
         if not stmts:
@@ -168,6 +210,8 @@ class Translator:
             return True
         if isinstance(last, ast.If):
             return self.returns(last.body) and bool(last.orelse) and self.returns(last.orelse)
+        if isinstance(last, ast.Match):
+            return all(self.returns(c.body) for c in last.cases)
         return False
 
 
